@@ -32,6 +32,7 @@ class Scope(list[Any]):
 
     owner: "NixExpression | None"
     from_with: bool
+    definition_chain: tuple[Any, ...] | None
 
     def __init__(
         self, items: Iterable[Any] = (), *, owner: "NixExpression | None" = None
@@ -41,6 +42,10 @@ class Scope(list[Any]):
         # True for the environment of a `with`: consulted only after every
         # lexical scope (let, rec set, formals) failed to bind the name.
         self.from_with: bool = False
+        # Scopes in which the values of this scope were written, when they
+        # differ from the chain the scope is looked up through (a `with`
+        # environment reached through a name).
+        self.definition_chain: tuple[Any, ...] | None = None
 
     def _find_binding_index(self, key: str) -> int | None:
         from nix_manipulator.expressions.binding import Binding, same_attr_name
